@@ -36,6 +36,8 @@ def norm_type(tn):
     """Rust type_name -> universe key."""
     if tn in ("f64", "fpdec::Decimal"):
         return "AmountT"
+    if tn.startswith("gexec::"):
+        return tn[len("gexec::"):]
     if tn.startswith("astronomical_quantities::"):
         return "astro::" + tn.split("::")[-1]
     return tn.split("::")[-1]
